@@ -716,6 +716,39 @@ func genC05Facts() {
 		}
 		return true
 	})
+	// the arguments of the MuSig2 session the signer opens, with the
+	// parameters of signInputMuSig2 replaced by what Sign passes in
+	muSub := map[string]string{}
+	ast.Inspect(sg, func(n ast.Node) bool {
+		c, ok := n.(*ast.CallExpr)
+		if !ok || exprString(c.Fun) != "s.signInputMuSig2" {
+			return true
+		}
+		i := 0
+		for _, fld := range mu.Type.Params.List {
+			for _, nm := range fld.Names {
+				if i < len(c.Args) {
+					muSub[nm.Name] = canon(c.Args[i])
+				}
+				i++
+			}
+		}
+		return true
+	})
+	var sessArgs []string
+	muDefs := c05SimpleDefs(mu)
+	ast.Inspect(mu, func(n ast.Node) bool {
+		if c, ok := n.(*ast.CallExpr); ok && exprString(c.Fun) == "poolscript.TaprootMuSig2SigningSession" {
+			for _, a := range c.Args {
+				sessArgs = append(sessArgs, c05Canon(a, muSub, muDefs))
+			}
+		}
+		return true
+	})
+	if len(sessArgs) == 0 {
+		fail("signInputMuSig2: TaprootMuSig2SigningSession call not found")
+		return
+	}
 	// the taproot sighash type lives in poolscript.TaprootMuSig2Sign
 	tapHash := ""
 	if f := findFunc(pkgFiles("poolscript"), "TaprootMuSig2Sign"); f != nil {
@@ -740,6 +773,7 @@ func genC05Facts() {
 	l.p("def signerRawTx : String := %q", rawTx)
 	l.p("def signerMuSig2Tx : String := %q", muTx)
 	l.p("def signerMuSig2PrevOuts : String := %q", muPrev)
+	l.p("def signerMuSig2SessionArgs : List String := %s", leanStrList(sessArgs))
 	// --- the account modifiers the storer stages with, and their bodies ---
 	acctFiles := pkgFiles("account")
 	var modRows []string
